@@ -9,7 +9,12 @@
 //!
 //! Oracle (independent of the model): adjacency, endpoints, lengths and coordinates recomputed from the
 //! raw rows *by id*; forward and reverse views describe the same edge multiset; gzip/plain parity;
-//! explicit/scanned count parity; per-edge tables read with the real readers are aligned by row.
+//! explicit/scanned count parity; per-edge tables read with the real readers are aligned by row.  A load
+//! that SUCCEEDS must describe the files whatever they are (malformed files may be rejected, never
+//! loaded wrongly): the keys `graph_loader/edge-id-not-row-accepted`, `…/vertex-id-not-row-accepted`,
+//! `edge_loader/missing-vertex-accepted`, `graph_loader/scan-decides-gzip-by-extension` and
+//! `…/scan-misses-cr-line-endings` belong to repaired defects (corpus W1-W7) and fire again on a
+//! regression; `graph_loader/endpoint-beyond-vertex-rows-accepted` (W8, W9) is still open.
 use crate::ctx::{fbits, Ctx};
 use crate::rng::Rng;
 use routee_compass_core::algorithm::search::direction::Direction;
@@ -262,6 +267,10 @@ impl Case {
     /// ids are row numbers, endpoints are listed vertices, every row decodes, files exist, counts are
     /// right or scanned: the property's domain
     fn well_formed(&self) -> bool {
+        self.data_well_formed() && !self.e_enc.misnamed && !self.v_enc.misnamed
+    }
+    /// well-formed apart from a file name that does not say how the file is compressed
+    fn data_well_formed(&self) -> bool {
         let nv = self.vertices.len();
         self.edges.iter().enumerate().all(|(i, r)| r.id == i && r.src < nv && r.dst < nv && !self.e_bad(r))
             && self.vertices.iter().enumerate().all(|(i, r)| r.id == i && !self.v_bad(r))
@@ -271,8 +280,6 @@ impl Case {
             && !self.v_enc.empty
             && !self.e_enc.cr_only
             && !self.v_enc.cr_only
-            && !self.e_enc.misnamed
-            && !self.v_enc.misnamed
             && self.n_v.map(|n| n == nv).unwrap_or(true)
     }
 }
@@ -311,30 +318,8 @@ fn write_case(dir: &Path, tag: &str, rng_seed: &Rng, case: &Case, e_gz: bool, v_
     if !case.v_enc.absent {
         write_file(&v_path, &v_text, v_gz);
     }
-    let e_lines = if case.e_enc.misnamed && !case.e_enc.absent { misnamed_lines(&e_path, e_gz) } else { text_lines(&e_text) };
-    let v_lines = if case.v_enc.misnamed && !case.v_enc.absent { misnamed_lines(&v_path, v_gz) } else { text_lines(&v_text) };
-    Written { e_path, v_path, e_lines, v_lines }
-}
-
-/// the line count seen when the name and the content of a file disagree about compression.
-/// gzip data under a plain name: the newline bytes of the *compressed* stream (computed here from the
-/// bytes).  Plain text under a `.gz` name: whatever the gzip decoder makes of it — taken from the real
-/// `fs_utils::line_count` (decoding is not modelled; the model receives the count as data).
-fn misnamed_lines(path: &Path, content_gz: bool) -> usize {
-    if content_gz {
-        let bytes = std::fs::read(path).expect("read back");
-        if bytes.is_empty() {
-            return 0;
-        }
-        let n = bytes.split(|b| *b == b'\n').count();
-        if bytes.last() == Some(&b'\n') {
-            n - 1
-        } else {
-            n
-        }
-    } else {
-        routee_compass_core::util::fs::fs_utils::line_count(path, true).unwrap_or(0)
-    }
+    // the scan decides compression by content (like the csv reader), so the text alone fixes the count
+    Written { e_path, v_path, e_lines: text_lines(&e_text), v_lines: text_lines(&v_text) }
 }
 
 fn case_line(case: &Case, w: &Written) -> String {
@@ -951,7 +936,11 @@ fn corpus() -> Vec<Case> {
     nonl_v.final_newline = false;
     out.push(Case { kind: "wf", edges: vec![e(0, 0, 0, 3.25)], vertices: grid_vertices(1), n_e: None, n_v: None, e_enc: nonl, v_enc: nonl_v });
 
-    // --- witnesses of the findings (the loader accepts files that do not describe a network) ---
+    // --- witnesses of the findings: files that do not describe a network.  W1-W5 were accepted silently
+    // and are rejected with a DatasetError since /repo 0316a94 and c6cac08; W6 was loaded with empty
+    // adjacency and is rejected since 0316a94; W7 was loaded with empty adjacency and loads correctly
+    // since 12d5de8; W8 and W9 are still accepted.  The oracle keys are unchanged, so a regression of a
+    // repair is reported under the key of the original finding. ---
     // W1: two edges listed in the reverse order of their ids
     out.push(Case {
         kind: "edge-id-permuted",
@@ -1013,6 +1002,28 @@ fn corpus() -> Vec<Case> {
         n_v: None,
         e_enc: Enc::plain(4),
         v_enc: cr,
+    });
+    // W8: the declared vertex count (3) covers an endpoint for which the vertex file (2 rows) has no row
+    out.push(Case {
+        kind: "fewer-vertex-rows",
+        edges: vec![e(0, 0, 1, 7.0), e(1, 1, 2, 9.0)],
+        vertices: grid_vertices(2),
+        n_e: Some(2),
+        n_v: Some(3),
+        e_enc: Enc::plain(4),
+        v_enc: Enc::plain(3),
+    });
+    // W9: the same with a scanned count: a trailing blank line makes the scan see one vertex more
+    let mut blank = Enc::plain(3);
+    blank.trailing_blank = 1;
+    out.push(Case {
+        kind: "fewer-vertex-rows",
+        edges: vec![e(0, 0, 1, 7.0), e(1, 1, 2, 9.0)],
+        vertices: grid_vertices(2),
+        n_e: None,
+        n_v: None,
+        e_enc: Enc::plain(4),
+        v_enc: blank,
     });
     // W7: a gzip-compressed vertex file that is not named *.gz, scanned vertex count
     let mut mis = Enc::plain(3);
@@ -1076,9 +1087,9 @@ fn degree_bucket(d: usize) -> &'static str {
 }
 
 /// the key under which a silently accepted inconsistent file is reported
-fn finding_key(case: &Case, edges: &[ERow], vertices: &[VRow]) -> &'static str {
+fn finding_key(case: &Case, edges: &[ERow], vertices: &[VRow], table: usize) -> &'static str {
     let nv = vertices.len();
-    let table = case.n_v.unwrap_or(nv); // scanned count is at least the number of rows
+    // `table` is the size of the adjacency table the loader built (declared or scanned vertex count)
     if case.e_enc.cr_only || case.v_enc.cr_only {
         "graph_loader/scan-misses-cr-line-endings"
     } else if case.e_enc.misnamed || case.v_enc.misnamed {
@@ -1087,8 +1098,12 @@ fn finding_key(case: &Case, edges: &[ERow], vertices: &[VRow]) -> &'static str {
         "graph_loader/edge-id-not-row-accepted"
     } else if vertices.iter().enumerate().any(|(i, r)| r.id != i) {
         "graph_loader/vertex-id-not-row-accepted"
-    } else if edges.iter().any(|r| r.src >= nv.min(table) || r.dst >= nv.min(table)) {
+    } else if edges.iter().any(|r| r.src >= table || r.dst >= table) {
+        // an endpoint outside the adjacency table (declared / scanned vertex count)
         "edge_loader/missing-vertex-accepted"
+    } else if edges.iter().any(|r| r.src >= nv || r.dst >= nv) {
+        // inside the table, but the vertex file has no such row
+        "graph_loader/endpoint-beyond-vertex-rows-accepted"
     } else {
         "graph_loader/inconsistent-files-accepted"
     }
@@ -1179,6 +1194,12 @@ fn run_load_case(ctx: &mut Ctx, idx: usize, dir: &Path, case: &Case, rng: &Rng) 
         Ok(Err(err)) => {
             if wf {
                 ctx.fail(idx, "graph/load-error", format!("well-formed files rejected: {}", err));
+            } else if case.data_well_formed() {
+                ctx.fail(
+                    idx,
+                    "graph_loader/scan-decides-gzip-by-extension",
+                    format!("well-formed files whose names do not say how they are compressed are rejected: {}", err),
+                );
             }
         }
         Ok(Ok(g)) => {
@@ -1195,7 +1216,7 @@ fn run_load_case(ctx: &mut Ctx, idx: usize, dir: &Path, case: &Case, rng: &Rng) 
                     if wf {
                         ctx.fail(idx, &format!("graph/{}", aspect), msg);
                     } else {
-                        ctx.fail(idx, finding_key(case, &edges, &vertices), format!("[{}; {}] the load succeeds but {}", case.kind, aspect, msg));
+                        ctx.fail(idx, finding_key(case, &edges, &vertices, g.adj.len()), format!("[{}; {}] the load succeeds but {}", case.kind, aspect, msg));
                     }
                 }
             }
